@@ -74,6 +74,10 @@ impl RecordWriter {
     }
 
     fn finish(&self, w: &mut impl Write) -> std::io::Result<()> {
+        #[cfg(feature = "verif")]
+        if crate::verif::hooked() {
+            return crate::verif::db_write_all(w, &self.0);
+        }
         w.write_all(&self.0)
     }
 }
@@ -97,6 +101,11 @@ impl Writer {
     }
 
     fn write_signature(&mut self) -> std::io::Result<()> {
+        #[cfg(feature = "verif")]
+        if crate::verif::hooked() {
+            crate::verif::db_write_all(&mut self.w, "n2db".as_bytes())?;
+            return crate::verif::db_write_all(&mut self.w, &u32::to_le_bytes(VERSION));
+        }
         self.w.write_all("n2db".as_bytes())?;
         self.w.write_all(&u32::to_le_bytes(VERSION))
     }
